@@ -12,6 +12,11 @@ ASSUMPTIONS = ["PARTIAL: `results unchanged` is proved per request (stop/continu
 
 def run(seed, tier, replay=None):
     result = {"evaluations": 0, "distinct_nontrivial": 0, "rule": "", "samples": [], "traces": 0, "dist": {}, "violations": [], "broken": []}
+    t = tim.run_timer(seed, tier)
+    for k in ("evaluations", "distinct_nontrivial", "traces"): result[k] += t[k]
+    result["rule"] = t["rule"]; result["samples"] += t["samples"]; result["dist"].update(t["dist"])
+    for k in ("violations", "broken"): result[k] += t[k]
+    result["impl_failures"] = t["impl_failures"]
     return mix.merge(result, tim.run_family("stop", seed, tier, 18, 90, jobs=8))
 
 KNOWN_MATCHERS = {}
